@@ -292,6 +292,7 @@ def run_container(fam, kind, rng, rec, ci, arm, count):
     def setstate_fresh(c):
         st = c.__getstate__()
         f = cls()
+        _TARGET[0] = f         # (examined when the call fails)
         f.__setstate__(st)
         return f
     if base_keys:
@@ -403,6 +404,42 @@ def run_container(fam, kind, rng, rec, ci, arm, count):
                 del c
                 continue
             del res
+            # ---- a fresh object whose __setstate__ failed half-way ----------
+            tgt, _TARGET[0] = _TARGET[0], None
+            if tgt is not None and name.startswith('setstate-'):
+                # it must be a sound container holding nothing or everything
+                terrs = []
+                if is_tree:
+                    terrs, _w = hist.structural_checks(tgt, is_mapping,
+                                                       sizes=False)
+                    del _w
+                try:
+                    tgot = contents(tgt)
+                    tlen = (len(tgt), bool(tgt))
+                except Exception as e:
+                    terrs.append(('contents', '%s: %s' % (
+                        type(e).__name__, e)))
+                    tgot, tlen = None, None
+                if terrs or not (eq(tgot, []) or eq(tgot, before)) or \
+                        tlen != (len(tgot), bool(tgot)):
+                    rec.violation('target-of-failed-setstate-damaged',
+                                  errors=terrs[:3], observed=brief(tgot, 200),
+                                  len_bool=tlen, **d)
+                    del c, tgt
+                    continue
+                rec.ev('failed-setstate-target-checked')
+                try:
+                    # and it must be usable: load it again, use it
+                    tgt.__setstate__(c.__getstate__())
+                    if not eq(contents(tgt), before):
+                        raise AssertionError('second __setstate__ wrong')
+                except Exception as e:
+                    rec.violation('target-of-failed-setstate-unusable',
+                                  detail='%s: %s' % (type(e).__name__, e),
+                                  **d)
+                    del c, tgt
+                    continue
+            del tgt
             # ---- soundness and contents -----------------------------------
             if is_tree:
                 # (no node-size check: an insert whose split could not get
@@ -509,3 +546,4 @@ def run_container(fam, kind, rng, rec, ci, arm, count):
 
 _OTHER = [None]
 _CONN = [None]
+_TARGET = [None]
